@@ -277,13 +277,17 @@ func (s *server) ModifyColumnFamilies(ctx context.Context, req *btapb.ModifyColu
 			delete(cfs, mod.Id)
 
 			// Purge all data for this column family
+			var changedRows []*btpb.Row
 			tbl.rows.Ascend(func(r *btpb.Row) bool {
 				r, changed := scrubRow(r, tbl.cols())
 				if changed {
-					tbl.rows.ReplaceOrInsert(r)
+					changedRows = append(changedRows, r)
 				}
 				return true
 			})
+			for _, r := range changedRows {
+				tbl.updateRow(r) // deletes rows left without cells
+			}
 		} else if modify := mod.GetUpdate(); modify != nil {
 			cf, ok := cfs[mod.Id]
 			if !ok {
